@@ -627,6 +627,29 @@ def joint_case(case, res):
                 res.violation(f"joint|{name}|lazy difference", f"{name}: (a - b) computed lazily differs from the NumPy difference", case,
                               {"pair": name})
         res.hits["siblings in one graph"] += 1
+    # settings in force WHILE THE RESULT IS BUILT decide the result, not those in force when it is computed: a dispersion constant
+    # (a documented class attribute) changed only around the call
+    K0 = pb.DispersionMeasure.dispersion_constant
+    dmk = catalogue._dm_for(zn, 2.2)
+    try:
+        pb.DispersionMeasure.dispersion_constant = K0 * 1.25
+        ref_k = np.asarray(pb.coherent_dedispersion(zn, dmk).data)
+        ref_c = np.asarray(dmk.chirp_from_signal(zn))
+        lazy_k = pb.coherent_dedispersion(dask_signal(zn, layout), dmk)
+        lazy_c = dmk.chirp_from_signal(dask_signal(zn, layout))
+    finally:
+        pb.DispersionMeasure.dispersion_constant = K0
+    for sched in ("synchronous", "threads"):
+        res.transitions += 2
+        gk = np.asarray(lazy_k.data.compute(scheduler=sched))
+        gc = np.asarray(lazy_c.compute(scheduler=sched)) if isinstance(lazy_c, da.Array) else np.asarray(lazy_c)
+        if gk.shape != ref_k.shape or float(np.max(np.abs(gk - ref_k))) > 1e-5 or float(np.max(np.abs(gc - ref_c))) > 1e-5:
+            res.violation("joint|setting at build time vs compute time", f"a result built while DispersionMeasure.dispersion_constant was "
+                          f"changed differs, once computed ({sched}), from the NumPy result obtained under the same setting", case,
+                          {"sched": sched})
+            break
+    else:
+        res.hits["setting changed only around the call"] += 1
     res.sample({"joint": [n for n, _ in pairs]}, 1)
 
 
@@ -644,7 +667,7 @@ def check_case(case):
 def main(argv=None):
     return report.run_check(
         PID, gen_cases=gen_cases, check_case=check_case, describe=describe,
-        required_hits=["lazy, then equal after compute", "ambient Dask configuration (tiny automatic chunks)", "operation that raises", "layout rejected (chunked time axis)",
+        required_hits=["setting changed only around the call", "lazy, then equal after compute", "ambient Dask configuration (tiny automatic chunks)", "operation that raises", "layout rejected (chunked time axis)",
                        "chunked time axis accepted and correct", "task orders explored (graphs with a choice)",
                        "multiprocess scheduler", "task-body interleavings explored", "reader dask read lazy and equal",
                        "two readers in one graph", "materialise, write in place, materialise again", "siblings in one graph"],
